@@ -106,10 +106,10 @@ class Smtpd:
         open(self.qqout + ".exits", "w").write("".join("%d\n" % e for e in exits))
         for k, t in (errs or {}).items(): open(self.qqout + ".%d.err" % k, "wb").write(t)
         env = dict(os.environ, QMAILQUEUE=os.path.join(vlib.VERIF, "harness", stub), QQOUT=self.qqout,
-                   TCPREMOTEIP=c["remoteip"].decode("latin1"), TCPREMOTEHOST=c["remotehost"].decode("latin1"), TCPLOCALHOST=c["local"].decode("latin1"))
+                   TCPREMOTEIP=os.fsdecode(c["remoteip"]), TCPREMOTEHOST=os.fsdecode(c["remotehost"]), TCPLOCALHOST=os.fsdecode(c["local"]))
         env.update({k: v for k, v in vlib.shim_env(self.home).items() if k.startswith(("LD_PRELOAD", "SYSSHIM"))})
-        if c["remoteinfo"] is not None: env["TCPREMOTEINFO"] = c["remoteinfo"].decode("latin1")
-        if c["relayclient"] is not None: env["RELAYCLIENT"] = c["relayclient"].decode("latin1")
+        if c["remoteinfo"] is not None: env["TCPREMOTEINFO"] = os.fsdecode(c["remoteinfo"])
+        if c["relayclient"] is not None: env["RELAYCLIENT"] = os.fsdecode(c["relayclient"])
         if extra_env: env.update(extra_env)
         p = subprocess.run([prog or self.exe], input=data, stdout=subprocess.PIPE, stderr=subprocess.PIPE, env=env, timeout=60)
         subs = []
